@@ -700,7 +700,7 @@ Section AsmPerm.
         split; [exact Hok'|]. rewrite Hden'. unfold union_set in *. rewrite denote_union_unfold.
         apply bytes_eqb_eq in Hk. unfold mkey in Hk. subst k.
         assert (Hd2 : den_union (fun m => denote LType (snd m))
-                        (fun m d => match r with URKeyed | URKinded => DMap [(sty_name (snd m), d)] end) ms
+                        (fun m d => match r with URKeyed | URKinded | URStringprefix => DMap [(sty_name (snd m), d)] end) ms
                         (set_nth (length pre) (GPtr x) (map (fun _ => GNil) ss))
                       = DMap [(sty_name (snd mb), denote LType (snd mb) x)]) by (destruct r; exact Hden).
         destruct r; (rewrite Hd2 || (cbn; rewrite Hd2));
@@ -730,15 +730,15 @@ Section AsmPerm.
                destruct (nth_shape i ss); reflexivity). }
           destruct (member_asm_p LRepr false (kind_name d') ms ss d d' (fun m d => d) (Err XWrongKind) H Hb Hf' Hp)
             as [pre [mb [post [x [Hms [Hk [Hrun [Hok [Hden Hpx]]]]]]]]].
-          rewrite asm_union_kinded_unfold by assumption. rewrite Hinner.
           assert (Hs : s = SStruct sn ss).
           { simpl in Hl. destruct s; simpl in Es; try discriminate; try exact Es.
             simpl in Hl. rewrite andb_false_r in Hl. discriminate. }
-          rewrite Hs. rewrite Hrun.
+          rewrite asm_union_kinded_unfold; [|assumption|rewrite Hs; reflexivity]. rewrite Hinner. rewrite Hrun.
           eexists. split; [reflexivity|].
           split.
-          -- unfold ok_loc. unfold union_set in *. exact Hok.
+          -- rewrite Hs. unfold ok_loc. unfold union_set in *. exact Hok.
           -- unfold union_set in *. rewrite denote_union_unfold. cbn beta iota. rewrite Hden. exact Hpx.
+        * discriminate Hkwf.
     - (* enum *)
       apply scalar_case. no_container.
   Qed.
